@@ -44,12 +44,14 @@ def generate(rng, tier):
     pool = ["d1", "d2", "d3", "dmiss"]
     kinds = ["reg", "dir", "none"]
     seqs = []
-    for L in range(0, 3 if tier == "quick" else 5):
+    for L in range(0, 4 if tier == "quick" else 5):
         seqs += list(itertools.product(pool, repeat=L))
     placements = list(itertools.product(kinds, repeat=3))
     combos = [(s, p) for s in seqs for p in placements]
     if tier == "quick":
-        combos = rng.sample(combos, min(len(combos), 260))
+        # a directory added again after another one (A, B, A ...) keeps the place of its FIRST addition
+        again = [(s, p) for (s, p) in combos if len(s) == 3 and s[0] == s[2] != s[1] and p.count("reg") >= 2]
+        combos = rng.sample(combos, min(len(combos), 220)) + rng.sample(again, min(len(again), 60))
     for seq, place in combos:
         cdir = "%s/s%d" % (root, n)
         lines = schema_lines(SCHEMA) + pw_lines() + ["CWD " + hx(cdir)]
@@ -63,8 +65,12 @@ def generate(rng, tier):
                 lines.append("FILE %s dir ." % hx(d + "/x.conf"))
         lines.append("FILE %s reg %s" % (hx("main.conf"), hx("include(\"x.conf\")\ninclude(\"sub/y.conf\")\n")))
         lines.append("X 0 0")
+        forms = {}
+        same_form = rng.random() < 0.7        # the same directory usually spelt the same way each time it is added
         for d in seq:
             form = rng.random()
+            if same_form:
+                form = forms.setdefault(d, form)
             dd = d if form < 0.6 else (cdir + "/" + d if form < 0.85 else rng.choice(["~/" + d, "~nouser/" + d, "~" + (USERS[0] if USERS else "root") + "/" + d]))
             lines.append("SP 0 " + hx(dd))
         names = ["x.conf", "sub/y.conf", cdir + "/d2/x.conf", cdir + "/d1", cdir + "/dmiss/x.conf", "missing.conf", "", "./d1/x.conf"]
